@@ -75,7 +75,7 @@ func checkInputSourceLifetime(c *Ctx, rule string) {
 			c.Unresolved(rule, "wallet."+name)
 			continue
 		}
-		for _, cl := range fn.AnonFuncs {
+		for _, cl := range p.valueFunctionsOf(fn) {
 			for _, b := range cl.Blocks {
 				for _, ins := range b.Instrs {
 					r, ok := ins.(*ssa.Return)
@@ -92,16 +92,12 @@ func checkInputSourceLifetime(c *Ctx, rule string) {
 							if _, ok := o.(*ssa.FreeVar); ok {
 								k = "captured"
 							}
-							if u, ok := o.(*ssa.UnOp); ok {
-								if _, ok := u.X.(*ssa.FreeVar); ok {
-									k = "captured"
-								}
-							}
-						}
-						if u, ok := r.Results[i].(*ssa.UnOp); ok {
-							if _, ok := u.X.(*ssa.FreeVar); ok {
+							if u, ok := o.(*ssa.UnOp); ok && cellKey(u.X) != "" {
 								k = "captured"
 							}
+						}
+						if u, ok := r.Results[i].(*ssa.UnOp); ok && cellKey(u.X) != "" {
+							k = "captured"
 						}
 						kinds[k] = true
 						desc = append(desc, k)
@@ -270,11 +266,11 @@ func checkInputSourceConsumes(c *Ctx, rule string) {
 		return
 	}
 	n := 0
-	for _, cl := range fn.AnonFuncs {
+	for _, cl := range p.valueFunctionsOf(fn) {
 		for _, l := range loopsOf(cl) {
-			// the coin handed out: an element of a sequence loaded from a captured variable
-			var seq *ssa.FreeVar
-			var idx ssa.Value
+			// the coin handed out: an element of a sequence loaded from state that persists across calls (a captured
+			// variable, or a field of the struct the method is bound on)
+			seq, idxCell := "", ""
 			for b := range l.Blocks {
 				for _, ins := range b.Instrs {
 					ia, ok := ins.(*ssa.IndexAddr)
@@ -282,26 +278,27 @@ func checkInputSourceConsumes(c *Ctx, rule string) {
 						continue
 					}
 					if u, ok := stripConv(ia.X).(*ssa.UnOp); ok && u.Op == token.MUL {
-						if fv, ok := u.X.(*ssa.FreeVar); ok {
-							seq, idx = fv, ia.Index
+						if k := cellKey(u.X); k != "" {
+							seq = k
+							idxCell = ""
+							if iu, ok := stripConv(ia.Index).(*ssa.UnOp); ok && iu.Op == token.MUL {
+								idxCell = cellKey(iu.X)
+							}
 						}
 					}
 				}
 			}
-			if seq == nil {
+			if seq == "" {
 				continue
 			}
 			n++
-			var idxVar *ssa.FreeVar
-			if u, ok := stripConv(idx).(*ssa.UnOp); ok && u.Op == token.MUL {
-				idxVar, _ = u.X.(*ssa.FreeVar)
-			}
 			advances := func(ins ssa.Instruction) bool {
 				st, ok := ins.(*ssa.Store)
 				if !ok {
 					return false
 				}
-				return st.Addr == ssa.Value(seq) || (idxVar != nil && st.Addr == ssa.Value(idxVar))
+				k := cellKey(st.Addr)
+				return k != "" && (k == seq || k == idxCell)
 			}
 			bad := l.MustPassPerIteration(p, advances)
 			c.Check(rule, "input-source-cursor-persists-across-calls", l.Header.Instrs[0].Pos(), bad == "",
@@ -1096,4 +1093,167 @@ func mayHoldAt(p *Program, ins ssa.Instruction, key string, depth int) bool {
 		return false
 	}
 	return visit(ins.Block(), instrIndex(ins)-1)
+}
+
+// checkBirthdayMargin: locateBirthdayBlock accepts any block whose timestamp lies within birthdayBlockDelta of the stored
+// birthday — before OR after it — and scanning starts after that block. The scan start is "never later than the first
+// block that could pay the wallet" only because the wallet's creation stores the birthday EARLIER than the given one by
+// a safety margin: that margin must exist and be at least the search tolerance.
+func checkBirthdayMargin(c *Ctx, rule string) {
+	p := c.P
+	create := p.Func("waddrmgr", "", "Create")
+	if create == nil {
+		c.Unresolved(rule, "waddrmgr.Create")
+		return
+	}
+	delta, okD := constInPkg(p, "wallet", "birthdayBlockDelta")
+	if !okD {
+		c.Unresolved(rule, "wallet.birthdayBlockDelta")
+		return
+	}
+	n := 0
+	for _, call := range callsNamed(create, "putBirthday") {
+		n++
+		arg := stripConv(call.Call.Args[len(call.Call.Args)-1])
+		ok := false
+		why := "the birthday is stored as given (no safety margin)"
+		if add, isCall := arg.(*ssa.Call); isCall && calleeShort(&add.Call) == "Add" && len(add.Call.Args) == 2 {
+			_, fromParam := stripConv(add.Call.Args[0]).(*ssa.Parameter)
+			if k, isK := constInt(add.Call.Args[1]); isK && fromParam {
+				if k < 0 && -k >= delta {
+					ok = true
+				} else {
+					why = fmt.Sprintf("the margin %d ns is not a subtraction of at least the birthday-block tolerance %d ns", k, delta)
+				}
+			}
+		}
+		c.Check(rule, "creation-stores-birthday-with-margin", call.Pos(), ok,
+			"waddrmgr.Create: "+why+": the birthday-block search may settle on a block up to the tolerance AFTER the birthday, and scanning starts after it, so payments in the first blocks after the birthday are never seen")
+	}
+	c.Floor(rule, "birthday writes in Create", n, 1)
+}
+
+// checkCallbackProducersHandOverInline: the btcd and neutrino clients feed their slice-backed notification queue from
+// the backend library's callbacks (rpcclient.NotificationHandlers), which the library invokes one after the other in
+// the order the server sent the notifications. That order reaches the consumer only if each callback completes its
+// hand-over before it returns: the offer to the enqueue channel is a blocking select whose other cases are receives
+// (quit), and it is made by the callback itself — not by a goroutine the callback starts, which the next callback's
+// own hand-over can overtake.
+func checkCallbackProducersHandOverInline(c *Ctx, rule string) {
+	p := c.P
+	callbacks := map[*ssa.Function]bool{}
+	for _, fn := range p.FuncsIn("chain") {
+		for _, b := range fn.Blocks {
+			for _, ins := range b.Instrs {
+				st, ok := ins.(*ssa.Store)
+				if !ok {
+					continue
+				}
+				fa, ok := st.Addr.(*ssa.FieldAddr)
+				if !ok {
+					continue
+				}
+				if tn, _ := fieldAddrName(fa); tn != "NotificationHandlers" {
+					continue
+				}
+				if g := fnValueOf(st.Val); g != nil {
+					callbacks[p.underlying(g)] = true
+				}
+			}
+		}
+	}
+	c.Floor(rule, "backend notification callbacks registered by the chain clients", len(callbacks), 8)
+	isEnqueue := func(v ssa.Value) bool {
+		_, f, _, ok := fieldOf(stripConv(v))
+		return ok && f == "enqueueNotification"
+	}
+	sendsIn := func(f *ssa.Function) []ssa.Instruction {
+		var out []ssa.Instruction
+		for _, b := range f.Blocks {
+			for _, ins := range b.Instrs {
+				switch x := ins.(type) {
+				case *ssa.Send:
+					if isEnqueue(x.Chan) {
+						out = append(out, x)
+					}
+				case *ssa.Select:
+					for _, st := range x.States {
+						if st.Dir == types.SendOnly && isEnqueue(st.Chan) {
+							out = append(out, x)
+						}
+					}
+				}
+			}
+		}
+		return out
+	}
+	n := 0
+	var cbs []*ssa.Function
+	for f := range callbacks {
+		cbs = append(cbs, f)
+	}
+	sort.Slice(cbs, func(i, j int) bool { return cbs[i].Pos() < cbs[j].Pos() })
+	for _, cb := range cbs {
+		// the callback, its literals and the same-package functions it calls synchronously
+		sync := map[*ssa.Function]bool{}
+		var spawned []*ssa.Function
+		var walk func(f *ssa.Function, depth int)
+		walk = func(f *ssa.Function, depth int) {
+			if f == nil || sync[f] || depth > 4 || len(f.Blocks) == 0 || shortPkg(fnPkgPath(f)) != "chain" {
+				return
+			}
+			sync[f] = true
+			for _, b := range f.Blocks {
+				for _, ins := range b.Instrs {
+					switch x := ins.(type) {
+					case *ssa.Go:
+						if g := fnValueOf(x.Call.Value); g != nil {
+							spawned = append(spawned, g)
+						} else if g := x.Call.StaticCallee(); g != nil {
+							spawned = append(spawned, g)
+						}
+					case *ssa.Call:
+						if g := x.Call.StaticCallee(); g != nil {
+							walk(g, depth+1)
+						} else if g := fnValueOf(x.Call.Value); g != nil {
+							walk(g, depth+1)
+						}
+					case *ssa.Defer:
+						if g := fnValueOf(x.Call.Value); g != nil {
+							walk(g, depth+1)
+						}
+					}
+				}
+			}
+		}
+		walk(cb, 0)
+		for f := range sync {
+			for _, ins := range sendsIn(f) {
+				n++
+				okSel := true
+				if sel, isSel := ins.(*ssa.Select); isSel {
+					for _, st := range sel.States {
+						if st.Dir == types.SendOnly && !isEnqueue(st.Chan) {
+							okSel = false
+						}
+					}
+					if !sel.Blocking {
+						okSel = false
+					}
+				}
+				c.Check(rule, "callback-hands-over-before-returning:"+fnName(cb), ins.Pos(), okSel,
+					fnName(cb)+" offers its notification in a select that can give up (default case / another send): the callback returns with the notification not yet queued")
+			}
+		}
+		for _, g := range spawned {
+			for _, f := range Closures(g) {
+				for _, ins := range sendsIn(f) {
+					n++
+					c.Check(rule, "callback-hands-over-itself:"+fnName(cb), ins.Pos(), false,
+						fnName(cb)+" lets a goroutine it starts put the notification on the queue: the library's next callback can complete its own hand-over first, so the consumer sees the notifications in another order than the backend sent them (e.g. BlockConnected(h) before RescanProgress(h), RescanFinished before the last progress)")
+				}
+			}
+		}
+	}
+	c.Floor(rule, "enqueue sends made by backend callbacks", n, 5)
 }
